@@ -327,10 +327,50 @@ namespace Utv.C05
 open Spec
 variable {V : Type}
 
-structure ScanInv (W : World V) (P : Parser V) (o : Opts V) (data : List (Key × V)) (s : DfScan V) : Prop where
-  add : (s.addition, s.errs) = addAll W P o (extras W P data)
-  inp : ∀ kf ∈ P.fields, dget kf.2.name s.inputs = (best W kf.2 data).map fun rv => ⟨kf.2, rv.2, rv.1⟩
-  keys : ∀ n ∈ s.inputs.map (·.1), ∃ kf ∈ P.fields, kf.2.name = n
+/-- an entry of `inputs` that is an additional key -/
+def extraOf (ni : Key × Input V) : Option (Key × V) := if ni.2.field.isNone then some (ni.1, ni.2.value) else none
+
+theorem mem_dset {α : Type} {k : Key} {v : α} {d : List (Key × α)} (hnd : (d.map (·.1)).Nodup) {x : Key × α}
+    (h : x ∈ dset k v d) : x = (k, v) ∨ (x ∈ d ∧ x.1 ≠ k) := by
+  induction d with
+  | nil => simp [dset] at h; exact Or.inl h
+  | cons y ys ih =>
+    obtain ⟨a, b⟩ := y
+    simp only [List.map_cons, List.nodup_cons] at hnd
+    simp only [dset] at h
+    by_cases hk : a = k
+    · simp only [hk, if_true] at h
+      rcases List.mem_cons.mp h with e | e
+      · exact Or.inl e
+      · refine Or.inr ⟨List.mem_cons_of_mem _ e, ?_⟩
+        intro hx; apply hnd.1; rw [hk, ← hx]; exact List.mem_map_of_mem (f := (·.1)) e
+    · simp only [hk, if_false] at h
+      rcases List.mem_cons.mp h with e | e
+      · subst e; exact Or.inr ⟨by simp, hk⟩
+      · rcases ih hnd.2 e with e' | e'
+        · exact Or.inl e'
+        · exact Or.inr ⟨List.mem_cons_of_mem _ e'.1, e'.2⟩
+
+theorem filterMap_dset_none {α β : Type} (g : Key × α → Option β) (k : Key) (x : α) (l : List (Key × α))
+    (h1 : g (k, x) = none) (h2 : ∀ y, (k, y) ∈ l → g (k, y) = none) :
+    (dset k x l).filterMap g = l.filterMap g := by
+  induction l with
+  | nil => simp [dset, h1]
+  | cons y ys ih =>
+    obtain ⟨a, b⟩ := y
+    simp only [dset]
+    by_cases hk : a = k
+    · subst hk
+      simp only [if_true, List.filterMap_cons, h1, h2 b (by simp)]
+    · simp only [hk, if_false, List.filterMap_cons]
+      rw [ih (fun y hy => h2 y (List.mem_cons_of_mem _ hy))]
+
+structure ScanInv (W : World V) (P : Parser V) (data : List (Key × V)) (s : DfScan V) : Prop where
+  ext : s.inputs.filterMap extraOf = extras W P data
+  inp : ∀ kf ∈ P.fields, dget kf.2.name s.inputs = (best W kf.2 data).map fun rv => ⟨some kf.2, rv.2, rv.1⟩
+  keys : ∀ ni ∈ s.inputs,
+      (ni.2.field = none ∧ anyAccepts W P ni.1 = false ∧ ni.1 ∈ data.map (·.1))
+      ∨ (ni.2.field.isSome = true ∧ ∃ kf ∈ P.fields, kf.2.name = ni.1)
   nodup : (s.inputs.map (·.1)).Nodup
   conf : ∀ kf ∈ P.fields, kf.2.name ∈ s.conflicts ↔ ∃ x ∈ valsOf W kf.2 data, some x ≠ (best W kf.2 data).map (·.2)
 
@@ -338,18 +378,56 @@ theorem anyAccepts_false_iff (W : World V) (P : Parser V) (k : Key) :
     anyAccepts W P k = false ↔ ∀ kf ∈ P.fields, accepts W kf.2 k = false := by
   unfold anyAccepts; rw [List.any_eq_false]; simp
 
-theorem scanInv_step [DecidableEq V] {W : World V} (LL : LowerLaws W) {P : Parser V} (wf : WF W P) (o : Opts V)
-    {data : List (Key × V)} {s : DfScan V} (kv : Key × V) (inv : ScanInv W P o data s) :
-    ScanInv W P o (data ++ [kv]) (dfScanStep W P o s kv) := by
+theorem scanInv_step [DecidableEq V] {W : World V} (LL : LowerLaws W) {P : Parser V} (wf : WF W P)
+    {data : List (Key × V)} {s : DfScan V} (kv : Key × V) (hnew : kv.1 ∉ data.map (·.1))
+    (inv : ScanInv W P data s) :
+    ScanInv W P (data ++ [kv]) (dfScanStep W P s kv) := by
+  have hkeysmono : ∀ ni : Key × Input V,
+      ((ni.2.field = none ∧ anyAccepts W P ni.1 = false ∧ ni.1 ∈ data.map (·.1))
+        ∨ (ni.2.field.isSome = true ∧ ∃ kf ∈ P.fields, kf.2.name = ni.1)) →
+      ((ni.2.field = none ∧ anyAccepts W P ni.1 = false ∧ ni.1 ∈ (data ++ [kv]).map (·.1))
+        ∨ (ni.2.field.isSome = true ∧ ∃ kf ∈ P.fields, kf.2.name = ni.1)) := by
+    intro ni h
+    rcases h with ⟨h1, h2, h3⟩ | h
+    · exact Or.inl ⟨h1, h2, by rw [List.map_append]; exact List.mem_append_left _ h3⟩
+    · exact Or.inr h
   unfold dfScanStep
   cases hg : getField W P kv.1 with
   | none =>
     have hrej := (getField_none_iff LL wf kv.1).1 hg
     have hany : anyAccepts W P kv.1 = false := (anyAccepts_false_iff W P kv.1).2 hrej
+    -- the key is new among the entries: earlier additional keys are other input keys, field names are accepted keys
+    have hfresh : kv.1 ∉ s.inputs.map (·.1) := by
+      intro hc
+      rw [List.mem_map] at hc
+      obtain ⟨ni, hni, he⟩ := hc
+      rcases inv.keys ni hni with ⟨_, _, h3⟩ | ⟨_, kf, hf, hn⟩
+      · rw [he] at h3; exact hnew h3
+      · have := wf.accepts_name LL hf
+        rw [hn, he, hrej kf hf] at this; cases this
     simp only
-    refine ⟨?_, ?_, inv.keys, inv.nodup, ?_⟩
-    · rw [extras_snoc, hany]; simp only [Bool.false_eq_true, if_false]; rw [addAll_snoc, ← inv.add]
-    · intro kf hf; rw [best_snoc_reject W kf.2 data kv (hrej kf hf)]; exact inv.inp kf hf
+    rw [dset_of_not_mem _ _ _ hfresh]
+    refine ⟨?_, ?_, ?_, ?_, ?_⟩
+    · rw [List.filterMap_append, inv.ext, extras_snoc, hany]
+      simp [extraOf]
+    · intro kf hf
+      rw [best_snoc_reject W kf.2 data kv (hrej kf hf), dget_append, inv.inp kf hf]
+      have hne : ¬ kv.1 = kf.2.name := by
+        intro e
+        have := wf.accepts_name LL hf
+        rw [← e, hrej kf hf] at this; cases this
+      cases (best W kf.2 data) <;> simp [dget_cons, hne]
+    · intro ni hni
+      rcases List.mem_append.mp hni with h | h
+      · exact hkeysmono ni (inv.keys ni h)
+      · simp only [List.mem_singleton] at h
+        subst h
+        exact Or.inl ⟨rfl, hany, by simp⟩
+    · rw [List.map_append, List.nodup_append]
+      refine ⟨inv.nodup, by simp, ?_⟩
+      intro a ha b hb e
+      simp only [List.map_cons, List.map_nil, List.mem_singleton] at hb
+      rw [hb] at e; rw [e] at ha; exact hfresh ha
     · intro kf hf
       rw [best_snoc_reject W kf.2 data kv (hrej kf hf), valsOf_snoc]; simp only [hrej kf hf]
       simpa using inv.conf kf hf
@@ -365,11 +443,34 @@ theorem scanInv_step [DecidableEq V] {W : World V} (LL : LowerLaws W) {P : Parse
       · exact absurd (wf.accepts_unique LL hf hf0 ha hacc) hne
     have hname : ∀ kf ∈ P.fields, kf ≠ kf0 → ¬ kf0.2.name = kf.2.name := by
       intro kf hf hne e; exact hne (wf.name_inj hf hf0 e.symm)
-    have hadd : ∀ s' : DfScan V, s'.addition = s.addition → s'.errs = s.errs →
-        (s'.addition, s'.errs) = addAll W P o (extras W P (data ++ [kv])) := by
-      intro s' h1 h2; rw [extras_snoc, hany, h1, h2]; simpa using inv.add
     have hbest := best_snoc_accept W kf0.2 data kv hacc
     have hinp0 := inv.inp kf0 hf0
+    -- an entry under the field's name is a field entry
+    have hfieldentry : ∀ y, (kf0.2.name, y) ∈ s.inputs → extraOf (kf0.2.name, y) = none := by
+      intro y hy
+      rcases inv.keys _ hy with ⟨_, h2, _⟩ | ⟨h1, _⟩
+      · have := wf.accepts_name LL hf0
+        simp only at h2
+        rw [(anyAccepts_false_iff W P _).1 h2 kf0 hf0] at this; cases this
+      · simp only at h1
+        unfold extraOf
+        cases hfy : y.field with
+        | none => rw [hfy] at h1; cases h1
+        | some g => simp
+    have hextset : ∀ (r : Nat), (dset kf0.2.name (⟨some kf0.2, kv.2, r⟩ : Input V) s.inputs).filterMap extraOf
+        = extras W P (data ++ [kv]) := by
+      intro r
+      rw [filterMap_dset_none extraOf _ _ _ (by simp [extraOf]) hfieldentry, inv.ext, extras_snoc, hany]
+      simp
+    have hextsame : s.inputs.filterMap extraOf = extras W P (data ++ [kv]) := by
+      rw [inv.ext, extras_snoc, hany]; simp
+    have hkeysset : ∀ (r : Nat), ∀ ni ∈ dset kf0.2.name (⟨some kf0.2, kv.2, r⟩ : Input V) s.inputs,
+        ((ni.2.field = none ∧ anyAccepts W P ni.1 = false ∧ ni.1 ∈ (data ++ [kv]).map (·.1))
+          ∨ (ni.2.field.isSome = true ∧ ∃ kf ∈ P.fields, kf.2.name = ni.1)) := by
+      intro r ni hni
+      rcases mem_dset inv.nodup hni with e | ⟨e, _⟩
+      · subst e; exact Or.inr ⟨rfl, kf0, hf0, rfl⟩
+      · exact hkeysmono ni (inv.keys ni e)
     simp only
     -- the conflict bookkeeping, for whichever state the `if` produces
     have hconf : ∀ (C' : List Key),
@@ -389,10 +490,15 @@ theorem scanInv_step [DecidableEq V] {W : World V} (LL : LowerLaws W) {P : Parse
         exact inv.conf kf hf
     have hinpOther : ∀ (I' : List (Key × Input V)),
         (∀ n, n ≠ kf0.2.name → dget n I' = dget n s.inputs) →
-        ∀ kf ∈ P.fields, kf ≠ kf0 → dget kf.2.name I' = (best W kf.2 (data ++ [kv])).map fun rv => ⟨kf.2, rv.2, rv.1⟩ := by
+        ∀ kf ∈ P.fields, kf ≠ kf0 → dget kf.2.name I' = (best W kf.2 (data ++ [kv])).map fun rv => ⟨some kf.2, rv.2, rv.1⟩ := by
       intro I' hI' kf hf hk
       rw [hI' _ (fun e => hname kf hf hk e.symm), best_snoc_reject W kf.2 data kv (hother kf hf hk)]
       exact inv.inp kf hf
+    have hdsetOther : ∀ (x : Input V) n, n ≠ kf0.2.name → dget n (dset kf0.2.name x s.inputs) = dget n s.inputs := by
+      intro x n hn
+      rw [dget_dset]
+      have : ¬ kf0.2.name = n := fun e => hn e.symm
+      simp [this]
     cases hd : dget kf0.2.name s.inputs with
     | none =>
       have hbn : best W kf0.2 data = none := by
@@ -401,22 +507,15 @@ theorem scanInv_step [DecidableEq V] {W : World V} (LL : LowerLaws W) {P : Parse
         | none => rfl
         | some w => rw [hb] at hinp0; cases hinp0
       simp only
-      refine ⟨hadd _ rfl rfl, ?_, ?_, nodup_keys_dset _ _ _ inv.nodup, ?_⟩
+      refine ⟨hextset _, ?_, hkeysset _, nodup_keys_dset _ _ _ inv.nodup, ?_⟩
       · intro kf hf
         by_cases hk : kf = kf0
         · subst hk; simp only; rw [dget_dset, hbest, hbn]; simp [pickStep, rankOf]
-        · exact hinpOther _ (fun n hn => by
-            rw [dget_dset]
-            have : ¬ kf0.2.name = n := fun e => hn e.symm
-            simp [this]) kf hf hk
-      · intro n hn
-        rcases (keys_dset _ _ _ n).1 hn with e | e
-        · exact ⟨kf0, hf0, e.symm⟩
-        · exact inv.keys n e
+        · exact hinpOther _ (hdsetOther _) kf hf hk
       · apply hconf
         intro n; rw [hbn]; simp
     | some used =>
-      have hbu : best W kf0.2 data = some (used.rank, used.value) ∧ used.field = kf0.2 := by
+      have hbu : best W kf0.2 data = some (used.rank, used.value) ∧ used.field = some kf0.2 := by
         rw [hd] at hinp0
         cases hb : best W kf0.2 data with
         | none => rw [hb] at hinp0; cases hinp0
@@ -451,20 +550,16 @@ theorem scanInv_step [DecidableEq V] {W : World V} (LL : LowerLaws W) {P : Parse
               by_cases hin : kf0.2.name ∈ s.conflicts
               · exact hin
               · exfalso; apply hc; exact ⟨hne, by simpa using hin⟩
-      have hS : ∀ (b : Bool), (if used.value ≠ kv.2 ∧ (!s.conflicts.contains kf0.2.name) = true
-                          then { s with conflicts := s.conflicts ++ [kf0.2.name] } else s).inputs = s.inputs
-              ∧ (if used.value ≠ kv.2 ∧ (!s.conflicts.contains kf0.2.name) = true
-                          then { s with conflicts := s.conflicts ++ [kf0.2.name] } else s).addition = s.addition
-              ∧ (if used.value ≠ kv.2 ∧ (!s.conflicts.contains kf0.2.name) = true
-                          then { s with conflicts := s.conflicts ++ [kf0.2.name] } else s).errs = s.errs := by
-        intro _; split <;> exact ⟨rfl, rfl, rfl⟩
-      obtain ⟨hS1, hS2, hS3⟩ := hS true
+      have hS : (if used.value ≠ kv.2 ∧ (!s.conflicts.contains kf0.2.name) = true
+                          then { s with conflicts := s.conflicts ++ [kf0.2.name] } else s).inputs = s.inputs := by
+        split <;> rfl
       by_cases hr : rankOf W kf0.2 kv.1 ≥ used.rank
       · have hr' : (idxOf (if kf0.2.allAliases.contains kv.1 = true then kv.1 else W.lower kv.1) kf0.2.allAliases ≥ used.rank) := hr
         rw [if_pos hr']
-        refine ⟨hadd _ hS2 hS3, ?_, ?_, ?_, hconf _ hC⟩
+        refine ⟨?_, ?_, ?_, ?_, hconf _ hC⟩
+        · rw [hS]; exact hextsame
         · intro kf hf
-          rw [hS1]
+          rw [hS]
           by_cases hk : kf = kf0
           · subst hk
             rw [hd, hbest, hbu.1]
@@ -472,13 +567,14 @@ theorem scanInv_step [DecidableEq V] {W : World V} (LL : LowerLaws W) {P : Parse
             simp only [pickStep, better, this, if_false, Option.map_some, Option.some.injEq]
             cases used; simp at hbu ⊢; exact hbu.2
           · exact hinpOther _ (fun n _ => rfl) kf hf hk
-        · rw [hS1]; exact inv.keys
-        · rw [hS1]; exact inv.nodup
+        · rw [hS]; intro ni hni; exact hkeysmono ni (inv.keys ni hni)
+        · rw [hS]; exact inv.nodup
       · have hr' : ¬ (idxOf (if kf0.2.allAliases.contains kv.1 = true then kv.1 else W.lower kv.1) kf0.2.allAliases ≥ used.rank) := hr
         rw [if_neg hr']
-        refine ⟨hadd _ hS2 hS3, ?_, ?_, ?_, hconf _ hC⟩
+        refine ⟨?_, ?_, ?_, ?_, hconf _ hC⟩
+        · simp only [hS]; exact hextset _
         · intro kf hf
-          rw [hS1]
+          simp only [hS]
           by_cases hk : kf = kf0
           · subst hk
             rw [dget_dset, hbest, hbu.1]
@@ -486,29 +582,24 @@ theorem scanInv_step [DecidableEq V] {W : World V} (LL : LowerLaws W) {P : Parse
             rw [show pickStep (some (used.rank, used.value)) (rankOf W kf.2 kv.1, kv.2)
                   = some (rankOf W kf.2 kv.1, kv.2) from by simp [pickStep, better, this]]
             simp [rankOf]
-          · exact hinpOther _ (fun n hn => by
-            rw [dget_dset]
-            have : ¬ kf0.2.name = n := fun e => hn e.symm
-            simp [this]) kf hf hk
-        · intro n hn
-          rw [hS1] at hn
-          rcases (keys_dset _ _ _ n).1 hn with e | e
-          · exact ⟨kf0, hf0, e.symm⟩
-          · exact inv.keys n e
-        · rw [hS1]; exact nodup_keys_dset _ _ _ inv.nodup
+          · exact hinpOther _ (hdsetOther _) kf hf hk
+        · simp only [hS]; exact hkeysset _
+        · simp only [hS]; exact nodup_keys_dset _ _ _ inv.nodup
 
-theorem scanInv [DecidableEq V] {W : World V} (LL : LowerLaws W) {P : Parser V} (wf : WF W P) (o : Opts V)
-    (data : List (Key × V)) : ScanInv W P o data (data.foldl (dfScanStep W P o) {}) := by
+theorem scanInv [DecidableEq V] {W : World V} (LL : LowerLaws W) {P : Parser V} (wf : WF W P)
+    (data : List (Key × V)) (hnd : (data.map (·.1)).Nodup) :
+    ScanInv W P data (data.foldl (dfScanStep W P) {}) := by
   induction data using Utv.List.rev_ind with
   | nil =>
     refine ⟨rfl, ?_, ?_, ?_, ?_⟩
     · intro kf _; rfl
-    · intro n hn; simp at hn
+    · intro ni hni; simp at hni
     · simp
     · intro kf _; simp [valsOf]
   | snoc l kv ih =>
     rw [List.foldl_append]
-    exact scanInv_step LL wf o kv ih
+    rw [List.map_append, List.nodup_append] at hnd
+    exact scanInv_step LL wf kv (fun hc => hnd.2.2 _ hc _ (by simp) rfl) (ih hnd.1)
 
 end Utv.C05
 
@@ -571,64 +662,156 @@ theorem mem_valsOf_iff (W : World V) (f : PField V) (data : List (Key × V)) (x 
       simp [this, he]
     · simp [hn] at he
 
-/-! ### the provided-field loop and the absent-field loop -/
+/-! ### the second loop (what was given, in input order) and the absent-field loop -/
 
-theorem dfProvide_fold [DecidableEq V] {W : World V} (LL : LowerLaws W) {P : Parser V} (wf : WF W P) (o : Opts V)
-    {data : List (Key × V)} {s : DfScan V} (inv : ScanInv W P o data s)
-    (l : List (Key × Input V)) (hl : ∀ ni ∈ l, ni ∈ s.inputs) (st : St V) :
-    dfProvideAll {} W o s.conflicts l st = foldOut (outOf W o data) (l.map (·.2.field)) st
-    ∧ ∀ ni ∈ l, ∃ kf ∈ P.fields, kf.2 = ni.2.field ∧ kf.2.name = ni.1 ∧ (outOf W o data kf.2).provided = true := by
-  induction l generalizing st with
-  | nil => exact ⟨rfl, by simp⟩
+def fieldsOf (l : List (Key × Input V)) : List (PField V) := l.filterMap (·.2.field)
+
+def extrasOf (l : List (Key × Input V)) : List (Key × V) := l.filterMap extraOf
+
+/-- keeping one additional key -/
+def keepStep (W : World V) (P : Parser V) (o : Opts V) (a : List (Key × V)) (kv : Key × V) : List (Key × V) :=
+  match (parseAddition W P o kv.1 kv.2).1 with | some x => dset kv.1 x a | none => a
+
+theorem addStep_fold (W : World V) (P : Parser V) (o : Opts V) (X : List (Key × V)) (a : List (Key × V)) (e : List Err) :
+    X.foldl (addStep W P o) (a, e) =
+      (X.foldl (keepStep W P o) a, e ++ X.flatMap fun kv => (parseAddition W P o kv.1 kv.2).2) := by
+  induction X generalizing a e with
+  | nil => simp
+  | cons x xs ih =>
+    simp only [List.foldl_cons, List.flatMap_cons]
+    have : addStep W P o (a, e) x = (keepStep W P o a x, e ++ (parseAddition W P o x.1 x.2).2) := by
+      unfold addStep keepStep; rfl
+    rw [this, ih, List.append_assoc]
+
+/-- the data parts of a fold of contracts do not depend on the errors collected so far -/
+theorem foldOut_core (out : PField V → FieldOut V) (F : List (PField V)) (st st' : St V)
+    (h1 : st.result = st'.result) (h2 : st.deps = st'.deps) (h3 : st.unprov = st'.unprov) :
+    (foldOut out F st).result = (foldOut out F st').result ∧ (foldOut out F st).deps = (foldOut out F st').deps
+    ∧ (foldOut out F st).unprov = (foldOut out F st').unprov := by
+  induction F generalizing st st' with
+  | nil => exact ⟨h1, h2, h3⟩
+  | cons g F ih =>
+    simp only [foldOut_cons]
+    apply ih
+    · simp only [applyOut, h1]
+    · simp only [applyOut, h2]
+    · simp only [applyOut, h3]
+
+theorem dfItems_fold [DecidableEq V] {W : World V} (LL : LowerLaws W) {P : Parser V} (wf : WF W P) (o : Opts V)
+    {data : List (Key × V)} {s : DfScan V} (inv : ScanInv W P data s)
+    (l : List (Key × Input V)) (hl : ∀ ni ∈ l, ni ∈ s.inputs) (acc : St V × List (Key × V)) :
+    ((l.foldl (dfItemStep {} W P o s.conflicts) acc).1.result = (foldOut (outOf W o data) (fieldsOf l) acc.1).result
+      ∧ (l.foldl (dfItemStep {} W P o s.conflicts) acc).1.deps = (foldOut (outOf W o data) (fieldsOf l) acc.1).deps
+      ∧ (l.foldl (dfItemStep {} W P o s.conflicts) acc).1.unprov = (foldOut (outOf W o data) (fieldsOf l) acc.1).unprov)
+    ∧ (∀ e, e ∈ (l.foldl (dfItemStep {} W P o s.conflicts) acc).1.errs ↔
+          e ∈ (foldOut (outOf W o data) (fieldsOf l) acc.1).errs
+          ∨ ∃ kv ∈ extrasOf l, e ∈ (parseAddition W P o kv.1 kv.2).2)
+    ∧ (l.foldl (dfItemStep {} W P o s.conflicts) acc).2 = (extrasOf l).foldl (keepStep W P o) acc.2
+    ∧ ∀ ni ∈ l, ∀ g, ni.2.field = some g →
+        ∃ kf ∈ P.fields, kf.2 = g ∧ kf.2.name = ni.1 ∧ (outOf W o data kf.2).provided = true := by
+  induction l generalizing acc with
+  | nil => exact ⟨⟨rfl, rfl, rfl⟩, fun e => by simp [fieldsOf, extrasOf], rfl, by simp⟩
   | cons ni l ih =>
     have hni := hl ni (by simp)
-    obtain ⟨kf, hf, hname⟩ := inv.keys ni.1 (List.mem_map_of_mem (f := (·.1)) hni)
-    have hd : dget ni.1 s.inputs = some ni.2 := dget_of_mem inv.nodup hni
-    have hinp := inv.inp kf hf
-    rw [hname, hd] at hinp
-    cases hb : best W kf.2 data with
-    | none => rw [hb] at hinp; cases hinp
-    | some w =>
-      rw [hb] at hinp
-      simp only [Option.map_some, Option.some.injEq] at hinp
-      have hhead : (candidates W kf.2 data).head? = some w.2 := by rw [← best_eq_head wf hf, hb]; rfl
-      obtain ⟨rest, hc⟩ : ∃ rest, candidates W kf.2 data = w.2 :: rest := by
-        cases hcd : candidates W kf.2 data with
-        | nil => rw [hcd] at hhead; cases hhead
-        | cons c rest => rw [hcd] at hhead; simp at hhead; exact ⟨rest, by rw [hhead]⟩
-      have hflag : (s.conflicts.contains ni.1 && !o.ignoreAliasConflicts)
-          = (!o.ignoreAliasConflicts && rest.any (· ≠ w.2)) := by
-        rw [Bool.and_comm]
-        congr 1
-        rw [Bool.eq_iff_iff, List.contains_iff_mem, ← hname, inv.conf kf hf, hb, List.any_eq_true]
-        simp only [Option.map_some, ne_eq, Option.some.injEq, decide_eq_true_eq]
+    have hl' : ∀ x ∈ l, x ∈ s.inputs := fun x hx => hl x (List.mem_cons_of_mem _ hx)
+    rw [List.foldl_cons]
+    cases hfield : ni.2.field with
+    | none =>
+      have hstep : dfItemStep {} W P o s.conflicts acc ni =
+          ({ acc.1 with errs := acc.1.errs ++ (parseAddition W P o ni.1 ni.2.value).2 },
+           keepStep W P o acc.2 (ni.1, ni.2.value)) := by
+        unfold dfItemStep keepStep; simp only [hfield]; rfl
+      have hF : fieldsOf (ni :: l) = fieldsOf l := by
+        unfold fieldsOf; rw [List.filterMap_cons_none (f := fun x : Key × Input V => x.2.field) hfield]
+      have hX : extrasOf (ni :: l) = (ni.1, ni.2.value) :: extrasOf l := by
+        unfold extrasOf
+        rw [List.filterMap_cons_some (b := (ni.1, ni.2.value)) (by simp [extraOf, hfield])]
+      obtain ⟨⟨i1, i2, i3⟩, i4, i5, i6⟩ := ih hl' (dfItemStep {} W P o s.conflicts acc ni)
+      rw [hF, hX]
+      obtain ⟨c1, c2, c3⟩ := foldOut_core (outOf W o data) (fieldsOf l)
+        (dfItemStep {} W P o s.conflicts acc ni).1 acc.1 (by rw [hstep]) (by rw [hstep]) (by rw [hstep])
+      refine ⟨⟨i1.trans c1, i2.trans c2, i3.trans c3⟩, ?_, ?_, ?_⟩
+      · intro e
+        rw [i4 e, foldOut_errs, foldOut_errs, hstep]
+        simp only [List.mem_append, List.mem_cons, exists_eq_or_imp]
         constructor
-        · rintro ⟨x, hx, hne⟩
-          rw [mem_valsOf_iff, hc] at hx
-          rcases List.mem_cons.mp hx with e | e
-          · exact absurd e hne
-          · exact ⟨x, e, hne⟩
-        · rintro ⟨x, hx, hne⟩
-          exact ⟨x, by rw [mem_valsOf_iff, hc]; exact List.mem_cons_of_mem _ hx, hne⟩
-      have hstep : provide {} W o ni.2.field ni.2.value (s.conflicts.contains ni.1 && !o.ignoreAliasConflicts) st
-          = applyOut kf.2 (outOf W o data kf.2) st := by
-        rw [hflag, hinp]
-        exact provide_eq W o kf.2 data st w.2 rest hc
-      have hprov : (outOf W o data kf.2).provided = true := by
-        unfold outOf; rw [provided_eq, hc]; rfl
-      obtain ⟨ih1, ih2⟩ := ih (fun x hx => hl x (List.mem_cons_of_mem _ hx)) (applyOut kf.2 (outOf W o data kf.2) st)
-      constructor
-      · unfold dfProvideAll at ih1 ⊢
-        rw [List.foldl_cons, hstep, ih1]
-        simp only [List.map_cons, foldOut_cons]
-        rw [hinp]
-      · intro x hx
+        · rintro (((h | h) | h) | h)
+          · exact Or.inl (Or.inl h)
+          · exact Or.inr (Or.inl h)
+          · exact Or.inl (Or.inr h)
+          · exact Or.inr (Or.inr h)
+        · rintro ((h | h) | (h | h))
+          · exact Or.inl (Or.inl (Or.inl h))
+          · exact Or.inl (Or.inr h)
+          · exact Or.inl (Or.inl (Or.inr h))
+          · exact Or.inr h
+      · rw [i5, hstep]; rfl
+      · intro x hx g hg
         rcases List.mem_cons.mp hx with e | e
-        · subst e; exact ⟨kf, hf, by rw [hinp], hname, hprov⟩
-        · exact ih2 x e
+        · subst e; rw [hfield] at hg; cases hg
+        · exact i6 x e g hg
+    | some f =>
+      -- a field entry: the scan invariant tells what it holds
+      obtain ⟨kf, hf, hname⟩ : ∃ kf ∈ P.fields, kf.2.name = ni.1 := by
+        rcases inv.keys ni hni with ⟨h1, _, _⟩ | ⟨_, h⟩
+        · rw [hfield] at h1; cases h1
+        · exact h
+      have hd : dget ni.1 s.inputs = some ni.2 := dget_of_mem inv.nodup hni
+      have hinp := inv.inp kf hf
+      rw [hname, hd] at hinp
+      cases hb : best W kf.2 data with
+      | none => rw [hb] at hinp; cases hinp
+      | some w =>
+        rw [hb] at hinp
+        simp only [Option.map_some, Option.some.injEq] at hinp
+        have hfe : f = kf.2 := by rw [hinp] at hfield; exact (Option.some.inj hfield).symm
+        have hhead : (candidates W kf.2 data).head? = some w.2 := by rw [← best_eq_head wf hf, hb]; rfl
+        obtain ⟨rest, hc⟩ : ∃ rest, candidates W kf.2 data = w.2 :: rest := by
+          cases hcd : candidates W kf.2 data with
+          | nil => rw [hcd] at hhead; cases hhead
+          | cons c rest => rw [hcd] at hhead; simp at hhead; exact ⟨rest, by rw [hhead]⟩
+        have hflag : (s.conflicts.contains ni.1 && !o.ignoreAliasConflicts)
+            = (!o.ignoreAliasConflicts && rest.any (· ≠ w.2)) := by
+          rw [Bool.and_comm]
+          congr 1
+          rw [Bool.eq_iff_iff, List.contains_iff_mem, ← hname, inv.conf kf hf, hb, List.any_eq_true]
+          simp only [Option.map_some, ne_eq, Option.some.injEq, decide_eq_true_eq]
+          constructor
+          · rintro ⟨x, hx, hne⟩
+            rw [mem_valsOf_iff, hc] at hx
+            rcases List.mem_cons.mp hx with e | e
+            · exact absurd e hne
+            · exact ⟨x, e, hne⟩
+          · rintro ⟨x, hx, hne⟩
+            exact ⟨x, by rw [mem_valsOf_iff, hc]; exact List.mem_cons_of_mem _ hx, hne⟩
+        have hval : ni.2.value = w.2 := by rw [hinp]
+        have hstep : dfItemStep {} W P o s.conflicts acc ni =
+            (applyOut kf.2 (outOf W o data kf.2) acc.1, acc.2) := by
+          unfold dfItemStep
+          rw [hfield]
+          simp only
+          rw [hflag, hfe, hval]
+          exact congrArg (fun x => (x, acc.2)) (provide_eq W o kf.2 data acc.1 w.2 rest hc)
+        have hprov : (outOf W o data kf.2).provided = true := by
+          unfold outOf; rw [provided_eq, hc]; rfl
+        have hF : fieldsOf (ni :: l) = kf.2 :: fieldsOf l := by
+          unfold fieldsOf
+          rw [List.filterMap_cons_some (f := fun x : Key × Input V => x.2.field) (b := kf.2) (by simp only [hfield, hfe])]
+        have hX : extrasOf (ni :: l) = extrasOf l := by
+          unfold extrasOf; rw [List.filterMap_cons_none (by simp [extraOf, hfield])]
+        obtain ⟨i123, i4, i5, i6⟩ := ih hl' (dfItemStep {} W P o s.conflicts acc ni)
+        rw [hF, hX, foldOut_cons, hstep]
+        rw [hstep] at i123 i4 i5
+        refine ⟨i123, i4, i5, ?_⟩
+        intro x hx g hg
+        rcases List.mem_cons.mp hx with e | e
+        · subst e
+          rw [hfield] at hg
+          exact ⟨kf, hf, by rw [← hfe]; exact Option.some.inj hg, hname, hprov⟩
+        · exact i6 x e g hg
 
 theorem dhas_inputs_iff [DecidableEq V] {W : World V} {P : Parser V} (wf : WF W P) (o : Opts V)
-    {data : List (Key × V)} {s : DfScan V} (inv : ScanInv W P o data s) {kf : Key × PField V} (hf : kf ∈ P.fields) :
+    {data : List (Key × V)} {s : DfScan V} (inv : ScanInv W P data s) {kf : Key × PField V} (hf : kf ∈ P.fields) :
     dhas kf.2.name s.inputs = (outOf W o data kf.2).provided := by
   unfold dhas outOf
   rw [inv.inp kf hf, provided_eq]
@@ -645,7 +828,7 @@ theorem dhas_inputs_iff [DecidableEq V] {W : World V} {P : Parser V} (wf : WF W 
     | cons c rest => simp
 
 theorem dfAbsent_fold [DecidableEq V] {W : World V} {P : Parser V} (wf : WF W P) (o : Opts V)
-    {data : List (Key × V)} {s : DfScan V} (inv : ScanInv W P o data s)
+    {data : List (Key × V)} {s : DfScan V} (inv : ScanInv W P data s)
     (l : List (Key × PField V)) (hl : ∀ kf ∈ l, kf ∈ P.fields) (st : St V) :
     l.foldl (fun st kf => if dhas kf.2.name s.inputs then st else absent {} o kf.2 st) st
       = foldOut (outOf W o data) ((l.filter fun kf => !(outOf W o data kf.2).provided).map (·.2)) st := by
@@ -707,32 +890,53 @@ theorem nodup_map_filter_of {α : Type} (f : α → Key) (p : α → Bool) {l : 
 
 /-- **data_first_parse and the reference run agree as finite maps / error sets.** -/
 theorem dataFirst_equiv_ref [DecidableEq V] {W : World V} (LL : LowerLaws W) {P : Parser V} (wf : WF W P)
-    (o : Opts V) (data : List (Key × V)) :
+    (o : Opts V) (data : List (Key × V)) (hndata : (data.map (·.1)).Nodup) :
     (∀ k, dget k (dataFirst {} W P o data).result = dget k (refRun W P o data).result)
     ∧ (∀ e, e ∈ (dataFirst {} W P o data).errs ↔ e ∈ (refRun W P o data).errs) := by
-  have inv := scanInv LL wf o data
-  generalize hs : data.foldl (dfScanStep W P o) {} = s at inv
-  obtain ⟨hprov, hprovmem⟩ := dfProvide_fold LL wf o inv s.inputs (fun _ h => h) ({ errs := s.errs } : St V)
-  have habs := dfAbsent_fold wf o inv P.fields (fun _ h => h)
-    (foldOut (outOf W o data) (s.inputs.map (·.2.field)) ({ errs := s.errs } : St V))
-  -- the state before the dependency check
-  let provL := s.inputs.map (·.2.field)
+  have inv := scanInv LL wf data hndata
+  generalize hs : data.foldl (dfScanStep W P) {} = s at inv
+  obtain ⟨⟨p1, p2, p3⟩, p4, p5, hprovmem⟩ :=
+    dfItems_fold LL wf o inv s.inputs (fun _ h => h) (({} : St V), ([] : List (Key × V)))
+  generalize hr : s.inputs.foldl (dfItemStep {} W P o s.conflicts) (({} : St V), ([] : List (Key × V))) = r
+    at p1 p2 p3 p4 p5
+  have habs := dfAbsent_fold wf o inv P.fields (fun _ h => h) r.1
+  let provL := fieldsOf s.inputs
   let absL := (P.fields.filter fun kf => !(outOf W o data kf.2).provided).map (·.2)
-  have hst2 : dfAbsentAll {} P o s.inputs (dfProvideAll {} W o s.conflicts s.inputs ({ errs := s.errs } : St V))
-      = foldOut (outOf W o data) (provL ++ absL) ({ errs := s.errs } : St V) := by
-    rw [foldOut_append]; unfold dfAbsentAll; rw [hprov, habs]
+  -- the additional keys
+  have hX : extrasOf s.inputs = extras W P data := inv.ext
+  have haddfold := addStep_fold W P o (extras W P data) [] []
+  have hadd1 : r.2 = (addAll W P o (extras W P data)).1 := by
+    rw [p5, hX]; unfold addAll; rw [haddfold]
+  have hadd2 : ∀ e, (∃ kv ∈ extrasOf s.inputs, e ∈ (parseAddition W P o kv.1 kv.2).2)
+      ↔ e ∈ (addAll W P o (extras W P data)).2 := by
+    intro e
+    rw [hX]; unfold addAll; rw [haddfold]
+    simp [List.mem_flatMap]
+  -- the state before the dependency check
+  have hcore := foldOut_core (outOf W o data) absL r.1 (foldOut (outOf W o data) provL ({} : St V)) p1 p2 p3
   -- the fields met by the two loops are exactly the declared ones, once each
+  have hmemprov : ∀ g, g ∈ provL → ∃ kf ∈ P.fields, kf.2 = g ∧ (outOf W o data kf.2).provided = true := by
+    intro g hg
+    simp only [provL, fieldsOf, List.mem_filterMap] at hg
+    obtain ⟨ni, hni, he⟩ := hg
+    obtain ⟨kf, hf, hfe, _, hp⟩ := hprovmem ni hni g he
+    exact ⟨kf, hf, hfe, hp⟩
   have hmem : ∀ g, g ∈ provL ++ absL ↔ g ∈ P.fields.map (·.2) := by
     intro g
-    simp only [List.mem_append, List.mem_map, List.mem_filter, provL, absL]
+    rw [List.mem_append]
     constructor
-    · rintro (⟨ni, hni, rfl⟩ | ⟨kf, ⟨hf, _⟩, rfl⟩)
-      · obtain ⟨kf, hf, he, _, _⟩ := hprovmem ni hni
-        exact ⟨kf, hf, he⟩
-      · exact ⟨kf, hf, rfl⟩
-    · rintro ⟨kf, hf, rfl⟩
+    · rintro (h | h)
+      · obtain ⟨kf, hf, he, _⟩ := hmemprov g h
+        exact List.mem_map.mpr ⟨kf, hf, he⟩
+      · simp only [absL, List.mem_map, List.mem_filter] at h
+        obtain ⟨kf, ⟨hf, _⟩, he⟩ := h
+        exact List.mem_map.mpr ⟨kf, hf, he⟩
+    · intro h
+      obtain ⟨kf, hf, rfl⟩ := List.mem_map.mp h
       cases hp : (outOf W o data kf.2).provided
-      · exact Or.inr ⟨kf, ⟨hf, by simp [hp]⟩, rfl⟩
+      · right
+        simp only [absL, List.mem_map, List.mem_filter]
+        exact ⟨kf, ⟨hf, by simp [hp]⟩, rfl⟩
       · left
         have hd : dhas kf.2.name s.inputs = true := by rw [dhas_inputs_iff wf o inv hf, hp]
         unfold dhas at hd
@@ -740,39 +944,75 @@ theorem dataFirst_equiv_ref [DecidableEq V] {W : World V} (LL : LowerLaws W) {P 
         | none => rw [hg] at hd; cases hd
         | some inp =>
           have hm := dget_mem hg
-          refine ⟨(kf.2.name, inp), hm, ?_⟩
-          obtain ⟨kg, hgf, he, hn, _⟩ := hprovmem _ hm
-          have : kg = kf := wf.name_inj hgf hf hn
-          subst this; exact he.symm
+          have hi := inv.inp kf hf
+          rw [hg] at hi
+          cases hb : best W kf.2 data with
+          | none => rw [hb] at hi; cases hi
+          | some w =>
+            rw [hb] at hi
+            simp only [Option.map_some, Option.some.injEq] at hi
+            simp only [provL, fieldsOf, List.mem_filterMap]
+            exact ⟨(kf.2.name, inp), hm, by rw [hi]⟩
   have hnd : ((provL ++ absL).map (·.name)).Nodup := by
     rw [List.map_append, List.nodup_append]
     refine ⟨?_, ?_, ?_⟩
-    · -- names of the provided fields are the keys of `inputs`
-      have : provL.map (·.name) = s.inputs.map (·.1) := by
-        simp only [provL, List.map_map]
-        apply List.map_congr_left
-        intro ni hni
-        obtain ⟨kf, _, he, hn, _⟩ := hprovmem ni hni
-        simp only [Function.comp]; rw [← he, hn]
-      rw [this]; exact inv.nodup
+    · -- names of the provided fields are distinct keys of `inputs`
+      have hgen : ∀ (l : List (Key × Input V)), (∀ ni ∈ l, ni ∈ s.inputs) → (l.map (·.1)).Nodup →
+          ((fieldsOf l).map (·.name)).Nodup ∧ ∀ n ∈ (fieldsOf l).map (·.name), n ∈ l.map (·.1) := by
+        intro l
+        induction l with
+        | nil => intro _ _; exact ⟨by simp [fieldsOf], by simp [fieldsOf]⟩
+        | cons ni l ih =>
+          intro hl hn
+          simp only [List.map_cons, List.nodup_cons] at hn
+          obtain ⟨ih1, ih2⟩ := ih (fun x hx => hl x (List.mem_cons_of_mem _ hx)) hn.2
+          cases hfield : ni.2.field with
+          | none =>
+            have : fieldsOf (ni :: l) = fieldsOf l := by
+              unfold fieldsOf; rw [List.filterMap_cons_none (f := fun x : Key × Input V => x.2.field) hfield]
+            rw [this]
+            exact ⟨ih1, fun n hn' => List.mem_cons_of_mem _ (ih2 n hn')⟩
+          | some g =>
+            have : fieldsOf (ni :: l) = g :: fieldsOf l := by
+              unfold fieldsOf; rw [List.filterMap_cons_some (f := fun x : Key × Input V => x.2.field) hfield]
+            rw [this]
+            obtain ⟨kf, hf, hfe, hname, _⟩ := hprovmem ni (hl ni (by simp)) g hfield
+            have hgn : g.name = ni.1 := by rw [← hfe]; exact hname
+            simp only [List.map_cons, List.nodup_cons]
+            refine ⟨⟨?_, ih1⟩, ?_⟩
+            · intro hc; rw [hgn] at hc; exact hn.1 (ih2 _ hc)
+            · intro n hn'
+              rcases List.mem_cons.mp hn' with e | e
+              · rw [e, hgn]; simp
+              · exact List.mem_cons_of_mem _ (ih2 n e)
+      exact (hgen s.inputs (fun _ h => h) inv.nodup).1
     · simp only [absL, List.map_map]
       exact nodup_map_filter_of (fun kf : Key × PField V => kf.2.name) _ wf.names_nodup
     · intro a ha b hb e
-      simp only [provL, absL, List.map_map, List.mem_map, List.mem_filter, Function.comp] at ha hb
-      obtain ⟨ni, hni, rfl⟩ := ha
-      obtain ⟨kf, ⟨hf, hnp⟩, rfl⟩ := hb
-      obtain ⟨kg, hgf, he, _, hp⟩ := hprovmem ni hni
-      rw [← he] at e
+      simp only [List.mem_map] at ha hb
+      obtain ⟨g, hg, rfl⟩ := ha
+      obtain ⟨g', hg', rfl⟩ := hb
+      obtain ⟨kg, hgf, he, hp⟩ := hmemprov g hg
+      simp only [absL, List.mem_map, List.mem_filter] at hg'
+      obtain ⟨kf, ⟨hf, hnp⟩, he'⟩ := hg'
+      rw [← he, ← he'] at e
       have : kg = kf := wf.name_inj hgf hf e
       subst this
       rw [hp] at hnp; cases hnp
   -- compare with the fold in declaration order
   have hndF : ((P.fields.map (·.2)).map (·.name)).Nodup := by
     rw [List.map_map]; exact wf.names_nodup
-  let st2 := foldOut (outOf W o data) (provL ++ absL) ({ errs := s.errs } : St V)
+  let st2 := foldOut (outOf W o data) absL r.1
+  let stP := foldOut (outOf W o data) (provL ++ absL) ({} : St V)
   let stF := foldOut (outOf W o data) (P.fields.map (·.2)) ({} : St V)
+  have hst2 : dfAbsentAll {} P o s.inputs r.1 = st2 := by unfold dfAbsentAll; rw [habs]
+  have hP : stP = foldOut (outOf W o data) absL (foldOut (outOf W o data) provL ({} : St V)) := foldOut_append _ _ _ _
+  have hres2 : st2.result = stP.result := by rw [hP]; exact hcore.1
+  have hdeps2 : st2.deps = stP.deps := by rw [hP]; exact hcore.2.1
+  have hunp2 : st2.unprov = stP.unprov := by rw [hP]; exact hcore.2.2
   have hres : ∀ k, dget k st2.result = dget k stF.result := by
     intro k
+    rw [hres2]
     by_cases hk : k ∈ (P.fields.map (·.2)).map (·.name)
     · rw [List.mem_map] at hk
       obtain ⟨g, hg, rfl⟩ := hk
@@ -785,45 +1025,45 @@ theorem dataFirst_equiv_ref [DecidableEq V] {W : World V} (LL : LowerLaws W) {P 
       rw [foldOut_result_other _ _ _ _ hk', foldOut_result_other _ _ _ _ hk]
   have hdeps : ∀ d, d ∈ st2.deps ↔ d ∈ stF.deps := by
     intro d
-    rw [foldOut_deps, foldOut_deps]
+    rw [hdeps2, foldOut_deps, foldOut_deps]
     simp only [List.not_mem_nil, false_or]
     constructor
     · rintro ⟨g, hg, h⟩; exact ⟨g, (hmem g).1 hg, h⟩
     · rintro ⟨g, hg, h⟩; exact ⟨g, (hmem g).2 hg, h⟩
   have hunp : ∀ n, n ∈ st2.unprov ↔ n ∈ stF.unprov := by
     intro n
-    rw [foldOut_unprov, foldOut_unprov]
+    rw [hunp2, foldOut_unprov, foldOut_unprov]
     simp only [List.not_mem_nil, false_or]
     constructor
     · rintro ⟨g, hg, h⟩; exact ⟨g, (hmem g).1 hg, h⟩
     · rintro ⟨g, hg, h⟩; exact ⟨g, (hmem g).2 hg, h⟩
-  have herr : ∀ e, e ∈ st2.errs ↔ e ∈ s.errs ∨ e ∈ stF.errs := by
+  have herr : ∀ e, e ∈ st2.errs ↔ e ∈ (addAll W P o (extras W P data)).2 ∨ e ∈ stF.errs := by
     intro e
-    rw [foldOut_errs, foldOut_errs]
+    rw [foldOut_errs, p4, foldOut_errs, foldOut_errs, hadd2]
     simp only [List.not_mem_nil, false_or]
     constructor
-    · rintro (h | ⟨g, hg, h⟩)
+    · rintro ((⟨g, hg, h⟩ | h) | ⟨g, hg, h⟩)
+      · exact Or.inr ⟨g, (hmem g).1 (List.mem_append_left _ hg), h⟩
       · exact Or.inl h
-      · exact Or.inr ⟨g, (hmem g).1 hg, h⟩
+      · exact Or.inr ⟨g, (hmem g).1 (List.mem_append_right _ hg), h⟩
     · rintro (h | ⟨g, hg, h⟩)
-      · exact Or.inl h
-      · exact Or.inr ⟨g, (hmem g).2 hg, h⟩
+      · exact Or.inl (Or.inr h)
+      · rcases List.mem_append.mp ((hmem g).2 hg) with hg' | hg'
+        · exact Or.inl (Or.inl ⟨g, hg', h⟩)
+        · exact Or.inr ⟨g, hg', h⟩
   have hlack : lackOf P st2 = lackOf P stF := lackOf_of_eq P hres hdeps hunp
-  have hadd : (s.addition, s.errs) = addAll W P o (extras W P data) := inv.add
-  have hadd1 : s.addition = (addAll W P o (extras W P data)).1 := by rw [← hadd]
-  have hadd2 : s.errs = (addAll W P o (extras W P data)).2 := by rw [← hadd]
   obtain ⟨hd2r, hd2e⟩ := depsCheck_fields P st2
   obtain ⟨hdFr, hdFe⟩ := depsCheck_fields P stF
   unfold dataFirst refRun
-  simp only [hs]
+  simp only [hs, hr]
   rw [hst2]
   constructor
   · intro k
-    show dget k (dupdate (depsCheck P st2).result s.addition) = dget k (dupdate (depsCheck P stF).result _)
+    show dget k (dupdate (depsCheck P st2).result r.2) = dget k (dupdate (depsCheck P stF).result _)
     rw [dget_dupdate, dget_dupdate, hd2r, hdFr, hres k, hadd1]
   · intro e
     show e ∈ (depsCheck P st2).errs ↔ e ∈ (depsCheck P stF).errs ++ _
-    rw [List.mem_append, hd2e, hdFe, herr, hlack, ← hadd2]
+    rw [List.mem_append, hd2e, hdFe, herr, hlack]
     constructor
     · rintro ((h | h) | h)
       · exact Or.inr h
